@@ -243,7 +243,7 @@ func deepEqual(a, b val.V) Res {
 	case "float":
 		x, y := a.Float64(), b.Float64()
 		if math.IsNaN(x) || math.IsNaN(y) {
-			return Unspecified
+			return False // NaN equals nothing, itself included (the classical, IEEE reading); -0 equals 0
 		}
 		return bres(x == y)
 	case "str":
@@ -303,14 +303,29 @@ func bres(b bool) Res {
 func ordered(op string, actual, lit val.V) Res {
 	if actual.Kind() == "int" && lit.Kind() == "int" {
 		if actual.K == "uint" || lit.K == "uint" {
+			// an integer above MaxInt64 is larger than every int64. Where the classical answer is "false" the
+			// statement is false, full stop; where it is "true" the library is documented to refuse such numbers
+			// (fail closed), which the properties allow, so no verdict is given.
+			var c int
+			switch {
+			case actual.K == "uint" && lit.K == "uint":
+				c = cmp3u(actual.U, lit.U)
+			case actual.K == "uint":
+				c = 1
+			default:
+				c = -1
+			}
+			if cmpRes(op, c) == False {
+				return False
+			}
 			return Unspecified
 		}
 		return cmpRes(op, cmp3(actual.I, lit.I))
 	}
 	if actual.Kind() == "float" && lit.Kind() == "float" {
 		x, y := actual.Float64(), lit.Float64()
-		if math.IsNaN(x) || math.IsNaN(y) || math.IsInf(x, 0) || math.IsInf(y, 0) {
-			return Unspecified
+		if math.IsNaN(x) || math.IsNaN(y) {
+			return False // every ordered comparison with NaN is false
 		}
 		c := 0
 		if x < y {
@@ -318,9 +333,26 @@ func ordered(op string, actual, lit val.V) Res {
 		} else if x > y {
 			c = 1
 		}
+		if math.IsInf(x, 0) || math.IsInf(y, 0) {
+			// same split as for big integers: classically false is false, classically true is left open
+			if cmpRes(op, c) == False {
+				return False
+			}
+			return Unspecified
+		}
 		return cmpRes(op, c)
 	}
 	return False // numbers of the same kind only
+}
+
+func cmp3u(a, b uint64) int {
+	if a < b {
+		return -1
+	}
+	if a > b {
+		return 1
+	}
+	return 0
 }
 
 func cmp3(a, b int64) int {
